@@ -310,9 +310,19 @@ impl<T: Qcow2IoOps> Qcow2Dev<T> {
                 self.flush_refcount().await?;
 
                 // flush mapping table in-place update
-                self.flush_table(&*l2_table, 0, l2_table.byte_size())
-                    .await?;
-                l2_handle.set_dirty(false);
+                //
+                // Not if the l2 cluster is still 'new': it is zeroed as a
+                // whole right before the first regular flush of any of its
+                // slices, which would wipe a slice written in place now.
+                // Leave the slice dirty then, the regular flush writes it
+                // after the zeroing (the l2 table isn't reachable from the
+                // on-disk l1 table yet anyway).
+                let l2_cluster = l2_table.get_offset().unwrap() >> info.cluster_bits();
+                if !self.cluster_is_new(l2_cluster).await {
+                    self.flush_table(&*l2_table, 0, l2_table.byte_size())
+                        .await?;
+                    l2_handle.set_dirty(false);
+                }
 
                 // release l2 table, so that this new mapping can be flushed
                 // to disk
